@@ -54,16 +54,23 @@ Lemma pos_after_app p a b : pos_after p (a ++ b) = pos_after (pos_after p a) b.
 Proof. unfold pos_after. apply fold_left_app. Qed.
 
 (* ------------------------------------------------------------------ well-formed states *)
-Definition wf (src : str) (x : st) : Prop :=
+(* positional part: consumed prefix, offset and (line, column) agree with TruePos *)
+Definition wfp (src : str) (x : st) : Prop :=
   exists pre, src = pre ++ rest x /\ off x = List.length pre /\ (line x, col x) = pos_after (1, 1) pre.
+(* ... and the diagnostics recorded so far extend a given list E (nothing is ever retracted).
+   The context is the pair (source, E). *)
+Definition ctx := (str * list diag)%type.
+Definition wf (src : ctx) (x : st) : Prop :=
+  wfp (fst src) x /\ exists new, errs x = new ++ snd src.
 
 Definition raw_advance (n : nat) (x : st) : st :=
   let (l, c) := pos_after (line x, col x) (firstn n (rest x)) in advance n (set_pos l c x).
 
 Lemma wf_raw_advance src x n : wf src x -> (n <= List.length (rest x))%nat -> wf src (raw_advance n x).
 Proof.
-  intros [pre [H1 [H2 H3]]] Hn. unfold raw_advance.
+  intros [[pre [H1 [H2 H3]]] He] Hn. unfold raw_advance.
   destruct (pos_after (line x, col x) (firstn n (rest x))) as [l c] eqn:E.
+  split; [|exact He].
   exists (pre ++ firstn n (rest x)). cbn. repeat split.
   - rewrite <- app_assoc, firstn_skipn. exact H1.
   - rewrite app_length, firstn_length_le by assumption. lia.
@@ -71,10 +78,18 @@ Proof.
 Qed.
 
 Lemma wf_add_err src d x : wf src x -> wf src (add_err d x).
-Proof. intros [pre H]. exists pre. exact H. Qed.
+Proof.
+  intros [[pre H] [new He]]. split; [exists pre; exact H|]. exists (d :: new). cbn. now rewrite He.
+Qed.
 
-Lemma wf_len src x : wf src x -> List.length src = (off x + List.length (rest x))%nat.
-Proof. intros [pre [H1 [H2 _]]]. rewrite H1, app_length. lia. Qed.
+Lemma wf_len src x : wf src x -> List.length (fst src) = (off x + List.length (rest x))%nat.
+Proof. intros [[pre [H1 [H2 _]]] _]. rewrite H1, app_length. lia. Qed.
+
+(* a state that only differs from a well-formed one by position fields taken from another
+   well-formed state (the restore of parse_char_literal) *)
+Lemma wf_restore src x x' : wf src x -> wf src x' ->
+  wf src (mkst (rest x) (off x) (line x) (col x) (errs x')).
+Proof. intros [[pre H] _] [_ He]. split; [exists pre; exact H|exact He]. Qed.
 
 Lemma off_raw_advance n x : off (raw_advance n x) = (off x + n)%nat.
 Proof. unfold raw_advance. destruct (pos_after _ _). reflexivity. Qed.
@@ -399,7 +414,7 @@ Proof.
     rewrite H in H0. cbn in H0. lia.
 Qed.
 
-Definition pop_post (src : str) (x : st) (r : popres) : Prop :=
+Definition pop_post (src : ctx) (x : st) (r : popres) : Prop :=
   match r with
   | PopOk _ x' => wf src x' /\ (off x < off x')%nat
   | PopEOF x' => wf src x' /\ (off x <= off x')%nat
